@@ -41,3 +41,7 @@ pub use state::verif_hooks as verif_state;
 #[cfg(scylla_verif)]
 #[allow(missing_docs)]
 pub use state::verif_hooks_tablets as verif_tablets_maintenance;
+
+#[cfg(scylla_verif)]
+#[allow(missing_docs)]
+pub use node::verif_hooks_flags as verif_node_flags;
